@@ -249,7 +249,11 @@ func buildCard(c CardCase) (*S, int) {
 		}
 	}
 	for i := 0; i < c.M; i++ {
-		k := sample(c.Child, i, c.Parent)
+		idx := i
+		if idx >= 9 {
+			idx++ // (the parent is sample number 9: a child of the same kind does not take its name)
+		}
+		k := sample(c.Child, idx, c.Parent)
 		if c.Child == "deviate" && i < len(c.Kinds) {
 			k.Arg = []string{"not-supported", "add", "replace", "delete"}[c.Kinds[i]%4]
 		}
@@ -301,7 +305,7 @@ func checkCard(c CardCase) fw.Outcome {
 	}
 	// the same statement inside the body of a prefixed extension statement (one and two levels deep): it is checked like
 	// anywhere else
-	if c.Parent != "module" && c.Parent != "submodule" {
+	if c.Parent != "module" && c.Parent != "submodule" && c.M <= 3 {
 		for depth := 1; depth <= 2; depth++ {
 			w := toStmt(p, depth)
 			for d := depth; d > 0; d-- {
@@ -340,7 +344,7 @@ func checkCard(c CardCase) fw.Outcome {
 
 var cardProp = fw.Register(&fw.Prop[CardCase]{
 	ID: "C09", Name: "card",
-	Rule: "ALL triples (parent keyword, child keyword, multiplicity 0/1/2) over the RFC 6020 keywords: the parent is built with every other required substatement once, the child added m times " +
+	Rule: "ALL triples (parent keyword, child keyword, multiplicity 0/1/2, and 256 copies) over the RFC 6020 keywords: the parent is built with every other required substatement once, the child added m times " +
 		"with a valid argument, plus a prefixed extension under every parent; refine and the four kinds of deviate as parents too (what they may hold depends on the target, which is the " +
 		"compiler's matter, but a substatement their tables give 0..1 may not be written twice); oracle: the RFC 6020 substatement tables transcribed by hand (harness/c09/rfc6020.go); a rejection must give the " +
 		"location of the child or parent and name one of them; every triple is a distinct non-trivial cell",
@@ -349,11 +353,12 @@ var cardProp = fw.Register(&fw.Prop[CardCase]{
 })
 
 func TestCardinalityTriples(t *testing.T) {
-	if fw.Shard() != 0 {
-		return
-	}
+	// (the parents are dealt out to the shards)
 	n := int64(0)
-	for _, p := range allKeywords {
+	for pi, p := range allKeywords {
+		if pi%fw.NShards() != fw.Shard() {
+			continue
+		}
 		for _, c := range allKeywords {
 			if c == "module" || c == "submodule" {
 				continue // never substatements; a second root is a file-level matter
@@ -366,6 +371,16 @@ func TestCardinalityTriples(t *testing.T) {
 						fw.Eval(cardProp, "", CardCase{Parent: p, Child: c, M: m, PKind: k})
 						n++
 					}
+				}
+			}
+			// many copies: a count is a count, it does not come round again (256 and 257 copies, 512 for a few)
+			if !((p == "module" || p == "submodule") && c == "revision") { // (the dates of the sample repeat after three: a matter of order, not of count)
+				fw.Eval(cardProp, "", CardCase{Parent: p, Child: c, M: 256})
+				n++
+				if c == "description" || c == "leaf" || c == "type" || c == "key" {
+					fw.Eval(cardProp, "", CardCase{Parent: p, Child: c, M: 257})
+					fw.Eval(cardProp, "", CardCase{Parent: p, Child: c, M: 512})
+					n += 2
 				}
 			}
 			if c == "deviate" {
@@ -392,7 +407,7 @@ func TestCardinalityTriples(t *testing.T) {
 		// prefixed extension statements are accepted anywhere
 		fw.Eval(extProp, "", ExtCase{Parent: p})
 	}
-	fw.NoteExhaustive("card", "all (parent, child, multiplicity 0..2) triples over the RFC 6020 keywords", n)
+	fw.NoteExhaustive("card", fmt.Sprintf("all (parent, child, multiplicity 0..2 and 256) triples over the RFC 6020 keywords (share of shard %d of %d)", fw.Shard(), fw.NShards()), n)
 }
 
 type ExtCase struct {
